@@ -408,4 +408,28 @@ def execPlan (s : Schema) (doc : Document) (opName : String) (vars : Vars) (worl
 def execPlanCost (s : Schema) (doc : Document) (opName : String) (vars : Vars) (world : World) : Counts :=
   (execPlan s doc opName vars world).counts
 
+/-! ## syntactic size of a document: selection sets written in it -/
+
+mutual
+/-- all selection sets below a selection, also through fields -/
+def setsSel : Selection → Nat
+  | .field _ _ _ _ none _ => 0
+  | .field _ _ _ _ (some ss) _ => setsSet ss
+  | .spread _ _ _ => 0
+  | .inline _ _ ss _ => setsSet ss
+def setsSet : SelectionSet → Nat
+  | .mk sels _ => 1 + setsSels sels
+def setsSels : List Selection → Nat
+  | [] => 0
+  | s :: rest => setsSel s + setsSels rest
+end
+
+def opSets (defs : List Definition) : Nat :=
+  (defs.map (fun | .operation _ _ _ _ ss _ => setsSet ss | _ => 0)).sum
+def fragSets (defs : List Definition) : Nat :=
+  (defs.map (fun | .fragment _ _ _ ss _ => setsSet ss | _ => 0)).sum
+/-- number of selection sets (`{ … }`) written in the executable definitions of a document -/
+def docSets (doc : Document) : Nat := opSets doc.defs + fragSets doc.defs
+
+
 end GqlModel.Cost
